@@ -230,7 +230,7 @@ Section Model.
       | _, _ => ProvePanic
       end.
 
-  Definition tree_reset (t : tree) : tree := mkTree (t_storage t) [] (t_count t).
+  Definition tree_reset (t : tree) : tree := mkTree (t_storage t) [] 0.
 
   (* ---- MerkleTree::load *)
   Definition peak_positions (leaves_count : N) : option (list N) :=
@@ -340,4 +340,38 @@ Section Model.
               end
           end
       end.
+
+  (* ---------------------------------------------------------------- histories (C11) *)
+  Inductive hop := HPush (d : bytes) | HReset | HLoad (k : N) | HProve (i : N) | HRoot.
+  Inductive hobs := OUnit | ORoot (r : D) (c : N) | OProof (p : option (D * list D)) | OLoad (ok : bool).
+
+  Definition m_prove (t : tree) (i : N) : option (option (D * list D)) :=
+    match tree_prove t i with
+    | ProveOk r p => Some (Some (r, p))
+    | ProveInvalidIndex => Some None
+    | ProveLoadError _ => Some None
+    | ProvePanic => None                 (* the Rust code would panic: never equal to an observation *)
+    end.
+
+  (* one step of a history; None = the Rust code would panic *)
+  Definition m_step (t : tree) (o : hop) : option (tree * hobs) :=
+    match o with
+    | HPush d => match tree_push t d with PushOk t' => Some (t', OUnit) | PushTooLarge => None end
+    | HReset => Some (tree_reset t, OUnit)
+    | HRoot => match tree_root t with Some r => Some (t, ORoot r (t_count t)) | None => None end
+    | HProve i => match m_prove t i with Some p => Some (t, OProof p) | None => None end
+    | HLoad k => match tree_load (t_storage t) k with
+                 | LoadOk t' => Some (t', OLoad true)
+                 | _ => Some (mkTree (t_storage t) [] 0, OLoad false)
+                 end
+    end.
+
+  Fixpoint m_run (t : tree) (ops : list hop) : option (list hobs) :=
+    match ops with
+    | [] => Some []
+    | o :: ops' => match m_step t o with
+                   | Some (t', b) => match m_run t' ops' with Some bs => Some (b :: bs) | None => None end
+                   | None => None
+                   end
+    end.
 End Model.
